@@ -17,14 +17,17 @@ Theorem C19_prep_refunds : forall s s', prep_zero_height s = Some s' ->
   /\ bal s' FeeColl = bal s FeeColl
   /\ supply s' = supply s.
 Proof. exact GenesisProofs.C19_prep_refunds. Qed.
+Print Assumptions C19_prep_refunds.
 
 Theorem C19_prep_escrow_empty : forall s s',
   escrow_backed s -> active_has_ctx s -> prep_zero_height s = Some s' -> bal s' Escrow = 0.
 Proof. exact GenesisProofs.C19_prep_escrow_empty. Qed.
+Print Assumptions C19_prep_escrow_empty.
 
 Theorem C19_prep_succeeds : forall s,
   escrow_backed s -> active_has_ctx s -> fees_nonneg s -> exists s', prep_zero_height s = Some s'.
 Proof. exact GenesisProofs.C19_prep_succeeds. Qed.
+Print Assumptions C19_prep_succeeds.
 
 Theorem C19_prep_contexts : forall s s', prep_zero_height s = Some s' ->
   ctxs s' = map (fun kv => (fst kv, reset_ctx (snd kv))) (ctxs s)
@@ -32,19 +35,23 @@ Theorem C19_prep_contexts : forall s s', prep_zero_height s = Some s' ->
   /\ (forall c rc', In (c, rc') (ctxs s') ->
         c_state rc' = Paused /\ c_bdone rc' = true /\ c_breq rc' = 0 /\ c_bresp rc' = 0).
 Proof. exact GenesisProofs.C19_prep_contexts. Qed.
+Print Assumptions C19_prep_contexts.
 
 Theorem C19_export_valid : forall cfg s s',
   params_ok cfg -> bindings_ok s -> contexts_ok s ->
   prep_zero_height s = Some s' -> validate_genesis (export_genesis cfg s') = true.
 Proof. exact GenesisProofs.C19_export_valid. Qed.
+Print Assumptions C19_export_valid.
 
 Theorem C19_roundtrip : forall cfg h t s, state_wf_exported s ->
   export_genesis cfg (import_genesis h t (export_genesis cfg s)) = export_genesis cfg s.
 Proof. exact GenesisProofs.C19_roundtrip. Qed.
+Print Assumptions C19_roundtrip.
 
 Theorem C19_import_export : forall h t g, genesis_wf g ->
   export_genesis (g_params g) (import_genesis h t g) = g.
 Proof. exact GenesisProofs.C19_import_export. Qed.
+Print Assumptions C19_import_export.
 
 Theorem C19_zero_height_roundtrip : forall cfg h t s s',
   params_ok cfg -> bindings_ok s -> contexts_ok s -> state_wf_exported s ->
@@ -52,20 +59,13 @@ Theorem C19_zero_height_roundtrip : forall cfg h t s s',
   exists si, init_genesis h t (export_genesis cfg s') = Ok si
              /\ export_genesis cfg si = export_genesis cfg s'.
 Proof. exact GenesisProofs.C19_zero_height_roundtrip. Qed.
+Print Assumptions C19_zero_height_roundtrip.
 
 Theorem C19_import_indexes : forall h t g, genesis_wf g -> single_owner g ->
   index_consistent (import_genesis h t g).
 Proof. exact GenesisProofs.C19_import_indexes. Qed.
-
-Print Assumptions C19_prep_refunds.
-Print Assumptions C19_prep_escrow_empty.
-Print Assumptions C19_prep_succeeds.
-Print Assumptions C19_prep_contexts.
-Print Assumptions C19_export_valid.
-Print Assumptions C19_roundtrip.
-Print Assumptions C19_import_export.
-Print Assumptions C19_zero_height_roundtrip.
 Print Assumptions C19_import_indexes.
+
 
 (* ------------------------------------------------------------------ *)
 (* Over reachable states (Proofs/GapC19.v, GapC19b.v).
@@ -118,7 +118,7 @@ Theorem C19_args_valid_def : forall o, args_valid o <->
   | OModCall _ _ _ cs _ _ _ _ _ _ _ _ _ _ => cs <> 0
   | _ => True
   end.
-Proof. intros o. destruct o; cbn [args_valid]; tauto. Qed.
+Proof. exact GapC19b.args_valid_def. Qed.
 Print Assumptions C19_args_valid_def.
 
 Theorem C19_reachV_reach : forall cfg s, ReachV cfg s -> Reach cfg s.
